@@ -61,6 +61,7 @@ type clNet struct {
 	seq     int
 	sends   int
 	down    map[uint64]bool
+	cut     map[uint64]bool // partitioned away (script actions isolate / heal)
 }
 
 type clPeers struct {
@@ -189,8 +190,8 @@ func (n *clNet) settle(want int) error {
 		return bytes.Compare(a.data, b.data) < 0
 	})
 	for _, m := range n.pending {
-		if n.down[m.to] {
-			continue // nobody listens
+		if n.down[m.to] || n.cut[m.to] || n.cut[m.from] {
+			continue // nobody listens / partitioned away
 		}
 		n.seq++
 		m.seq = n.seq
@@ -221,6 +222,7 @@ type clReplica struct {
 	lastTaken   uint64 // height of the last commit event taken in this incarnation (0 = none)
 	restarts    int
 	blocks      map[uint64]*pb.Block // blocks this replica can serve to a syncing peer
+	stalled     bool                 // its executor is busy: delivered blocks wait in the commit channel
 }
 
 type clCluster struct {
@@ -298,7 +300,7 @@ func newCluster(cfg clConfig) *clCluster {
 	if err := ioutil.WriteFile(filepath.Join(root, "order.toml"), []byte(clOrderToml(cfg)), 0644); err != nil {
 		panic(err)
 	}
-	c := &clCluster{root: root, net: &clNet{down: map[uint64]bool{}}, nodes: map[uint64]*pb.VpInfo{}, script: cfg.script, cfg: cfg, txs: map[string]pb.Transaction{}}
+	c := &clCluster{root: root, net: &clNet{down: map[uint64]bool{}, cut: map[uint64]bool{}}, nodes: map[uint64]*pb.VpInfo{}, script: cfg.script, cfg: cfg, txs: map[string]pb.Transaction{}}
 	for id := uint64(1); id <= 3; id++ {
 		c.nodes[id] = &pb.VpInfo{Id: id, Account: fix.Addr(fix.Key(fmt.Sprintf("vp-%d", id))).String()}
 	}
@@ -390,7 +392,7 @@ func (c *clCluster) enabled() (internal []string, faults []string) {
 		}
 	}
 	for _, r := range c.reps {
-		if r.alive && len(r.pendingExec) > 0 {
+		if r.alive && len(r.pendingExec) > 0 && !r.stalled {
 			internal = append(internal, fmt.Sprintf("exec:%d", r.id))
 		}
 	}
@@ -486,6 +488,7 @@ func (c *clCluster) kill(r *clReplica, loseInFlight bool) {
 	}
 	c.net.queue = keep
 	r.pendingExec, r.pendingRep = nil, nil
+	r.stalled = false // the executor dies with the process
 	for h := range r.blocks {
 		if h > r.execHeight {
 			delete(r.blocks, h) // handed over but not executed: gone with the process
@@ -654,6 +657,36 @@ func (c *clCluster) action(act string) {
 			}); why != "" {
 				c.nodeCrashed(r, act, why)
 				return
+			}
+		}
+	case "stall", "unstall": // the replica's executor stops / resumes taking blocks from the commit channel
+		var id uint64
+		fmt.Sscan(f[1], &id)
+		c.rep(id).stalled = f[0] == "stall"
+	case "isolate": // network partition: everything to and from the replica is lost until heal
+		var id uint64
+		fmt.Sscan(f[1], &id)
+		c.net.cut[id] = true
+		var keep []*clMsg
+		for _, m := range c.net.queue {
+			if m.to != id && m.from != id {
+				keep = append(keep, m)
+			}
+		}
+		c.net.queue = keep
+	case "heal":
+		var id uint64
+		fmt.Sscan(f[1], &id)
+		c.net.cut[id] = false
+	case "ticks": // ticks:<node>:<k>
+		var id uint64
+		var k int
+		fmt.Sscan(f[1], &id)
+		fmt.Sscan(f[2], &k)
+		r := c.rep(id)
+		for i := 0; i < k && r.alive; i++ {
+			if why := c.runNode(r, 0, func() { r.n.Verif_listenRaftMsg_Select0("<-ticker.C", nil) }); why != "" {
+				c.nodeCrashed(r, act, why)
 			}
 		}
 	case "batchtimeout":
@@ -836,6 +869,9 @@ var clConfigs = []clConfig{
 	{name: "batch1", batchSize: 1, script: []string{"campaign:1", "tx:1:a0", "tx:2:b0", "campaign:2", "tx:3:a1", "tx:1:b1"}},
 	{name: "pipeline", batchSize: 1, script: []string{"campaign:1", "txs:1:a0+b0+a1", "campaign:3", "txs:3:b1+a2"}},
 	{name: "snap", batchSize: 1, snapCount: 2, script: []string{"campaign:1", "txs:1:a0+b0+a1", "txs:2:b1+a2", "campaign:2"}},
+	// a follower whose executor is two blocks behind its ordering service is partitioned away, the others
+	// go on and compact their logs, the partition heals: the follower is brought up to date by a snapshot
+	{name: "snaplag", batchSize: 1, snapCount: 2, script: []string{"campaign:1", "stall:3", "txs:1:a0+b0", "isolate:3", "txs:1:a1+b1+a2+b2", "heal:3", "ticks:1:1", "unstall:3"}},
 	{name: "solo-batch1", solo: true, batchSize: 1, script: []string{"tx:a0", "txs:b0+a1", "tx:b1", "tx:a2"}},
 	{name: "solo-batch2", solo: true, batchSize: 2, script: []string{"tx:a0", "tx:b0", "tx:a1", "timeout", "txs:b1+a2", "timeout"}},
 	{name: "batch2", batchSize: 2, script: []string{"campaign:1", "tx:1:a0", "tx:2:b0", "tx:3:a1", "batchtimeout:1", "campaign:3", "tx:2:b1", "tx:1:a2"}},
@@ -989,7 +1025,11 @@ func init() {
 		}
 		for _, cfg := range clConfigs {
 			if cfg.name == name {
-				clReport(c, cfg, clRun(cfg, prefix))
+				x := clRun(cfg, prefix)
+				if os.Getenv("VERIF_CL_DEBUG") != "" {
+					fmt.Fprintf(os.Stderr, "CLDEBUG %s events=%d snapshots=%d fetches=%d trace: %s\n", cfg.name, x.events, x.snaps, x.fetches, strings.Join(x.trace, " "))
+				}
+				clReport(c, cfg, x)
 			}
 		}
 	}
@@ -1015,5 +1055,6 @@ func clTxs(ka, kb crypto.PrivateKey, to *types.Address) map[string]pb.Transactio
 	mk("a2", ka, 2, 300)
 	mk("b0", kb, 0, 150)
 	mk("b1", kb, 1, 250)
+	mk("b2", kb, 2, 350)
 	return m
 }
